@@ -33,6 +33,12 @@ def main(argv):
         for name, c in fl:
             cases.append(c)
             labels.append('fault:' + name)
+    # fixed valid shapes the random generator rarely produces: names containing one another or differing only in case around the
+    # multi-client settings, shadowed externs, twelve ports, semantics alternating in declaration order
+    from checks import shellrun as SR
+    for c in SR.case_only_cases() + SR.mc_name_containment_cases() + SR.shadowed_extern_cases()[:2] + SR.many_cases() + SR.mixed_semantics_cases(('MSM',)) + SR.prefix_name_cases()[:2]:
+        cases.append(c)
+        labels.append('valid')
     io, mo = BC.run_builds(cases, timeout=3000, twice=True)
     nv = 0
     for c, lab, i, m in zip(cases, labels, io, mo):
